@@ -339,14 +339,14 @@ QUICK = [
 THOROUGH = [
     ("full", G.POOL2, 3, 512, True),
     ("mid", G.POOL2, 3, 128, True),
-    ("core", G.POOL2, 4, 256, True),
+    ("core", G.POOL2, 4, 128, True),
     ("tiny", G.POOL2, 4, 64, True),
     ("tiny2", G.POOL2, 4, 64, True),
     ("tiny3", G.POOL2, 4, 128, True),
     ("deep1", G.POOL2, 5, 256, True),
     ("macro5", G.POOL2, 6, 128, True),
     ("alias", G.POOL3, 4, 128, False),
-    ("alias5", G.POOL3, 5, 512, False),
+    ("alias5", G.POOL3, 5, 256, True),
 ]
 
 
